@@ -791,6 +791,110 @@ static std::string history_json(Scen& s, size_t max_ops) {
 static const char* HIST_FORMAT = "[thread, operation, key, uid offered (inserts), result (bool / count / elements met), uid of the element the returned iterator points to, call stamp, return stamp]";
 
 // ------------------------------------------------------------------------------------------------ main
+// ------------------------------------------------------------------------------------------------ mode "pub": publication
+// Tight rounds on a fresh container: inserters and readers run with NO harness-side synchronisation between the two barriers of a
+// round (no clock, no shared log, no pauses), so the only happens-before edges a reader has to a node are the ones the container
+// itself creates. The deciding oracle is the race detector / address sanitizer of the variant (an element, key or level pointer
+// reached before it was published is a report); the round also checks conservation (size and a traversal == successful inserts).
+// Found with it: equal_range/count of the ordered multi containers read the upper-level next pointers of a node that is still being
+// linked; they had been stored relaxed (repaired in /repo by 9ea1c0e).
+struct PubShared { void* cont = nullptr; Cfg cfg; int nU = 8; int kind = 0; int inserters = 2; int per = 24; uint64_t seed = 0; std::atomic<long> succ{0}, attempts{0}, reads{0}; long overlapped = 0; };
+template <class C> static void pub_thread(PubShared& ps, int t, Barrier& b) {
+    Rng r(mix(ps.seed, 0x9B + (uint64_t)t));
+    if (t == 0) { if constexpr (is_unordered<C>::value) ps.cont = new C((size_t)1 << r.below(4), Hsh{ &ps.cfg }, Eq{ &ps.cfg }); else ps.cont = new C(Cmp{ &ps.cfg }); }
+    b.wait();
+    C& c = *(C*)ps.cont; const C& cc = c;
+    long succ = 0, att = 0, reads = 0, bad = 0;
+    const int g = ps.cfg.g;
+    if (t < ps.inserters) {
+        for (int i = 0; i < ps.per; i++) {
+            int key = (int)r.below((uint64_t)ps.nU) * g + (g > 1 ? (int)r.below((uint64_t)g) : 0); int uid = 1 + t * 100000 + i; att++;
+            tl_force_height = r.chance(1, 3) ? 1 + (int)r.below(6) : 0;
+            bool ok;
+            switch (r.below(3)) {
+            case 0: ok = c.insert(mk<C>(key, uid)).second; break;
+            case 1: { auto v = mk<C>(key, uid); ok = c.insert(v).second; break; }
+            default: if constexpr (is_map<C>::value) ok = c.emplace(key, Tag(uid, key)).second; else ok = c.emplace(key, uid).second;
+            }
+            succ += ok;
+        }
+        tl_force_height = 0;
+    } else {
+        for (int i = 0; i < 2 * ps.per; i++) {
+            int key = (int)r.below((uint64_t)ps.nU) * g; auto pk = probe<C>(key); reads++;
+            switch (r.below(is_unordered<C>::value ? 5 : 7)) {
+            case 0: { size_t n = cc.count(pk); (void)n; break; }
+            case 1: { auto it = cc.find(pk); if (it != cc.end() && (v_key(*it) / g != key / g || v_tag(*it).uid <= 0)) bad++; break; }
+            case 2: { bool x = cc.contains(pk); (void)x; break; }
+            case 3: { auto pr = cc.equal_range(pk); int n = 0; for (auto it = pr.first; it != pr.second && n < 64; ++it, ++n) if (v_tag(*it).uid <= 0 || v_tag(*it).key != v_key(*it)) bad++; break; }
+            case 4: { int n = 0; for (auto it = cc.begin(); it != cc.end() && n < 4096; ++it, ++n) if (v_tag(*it).uid <= 0 || v_tag(*it).key != v_key(*it)) bad++; break; }
+            case 5: if constexpr (!is_unordered<C>::value) { auto it = cc.lower_bound(pk); if (it != cc.end() && v_tag(*it).uid <= 0) bad++; } break;
+            default: if constexpr (!is_unordered<C>::value) { auto it = cc.upper_bound(pk); if (it != cc.end() && v_tag(*it).uid <= 0) bad++; } break;
+            }
+        }
+    }
+    ps.succ.fetch_add(succ, std::memory_order_relaxed); ps.attempts.fetch_add(att, std::memory_order_relaxed); ps.reads.fetch_add(reads, std::memory_order_relaxed);
+    if (bad) fail(std::string("c12.") + fam(ps.kind) + ".pub.reader-met-unconstructed-element", std::to_string(bad) + " elements reached by a concurrent reader had no constructed payload or a payload of another key");
+    b.wait();
+    if (t == 0) {
+        long n = 0; std::vector<int> keys; for (auto it = cc.begin(); it != cc.end(); ++it) { n++; keys.push_back(v_key(*it)); }
+        long want = ps.succ.load();
+        const std::string F = std::string("c12.") + fam(ps.kind);
+        if ((long)cc.size() != want) fail(F + ".quiescent.size-mismatch", "pub round: size() " + std::to_string(cc.size()) + " but " + std::to_string(want) + " inserts reported success");
+        if (n != want) fail(F + ".quiescent.lost-element", "pub round: traversal met " + std::to_string(n) + " elements but " + std::to_string(want) + " inserts reported success");
+        if (!ck_multi(ps.kind)) { std::set<int> cls; for (int k : keys) if (!cls.insert(k / g).second) { fail(F + ".unique.two-equivalent-keys", "pub round: unique container holds two elements of class " + std::to_string(k / g)); break; } }
+        if constexpr (!is_unordered<C>::value) for (size_t i = 1; i < keys.size(); i++) if (Cmp{ &ps.cfg }(keys[i], keys[i - 1])) { fail(F + ".order.traversal-not-sorted", "pub round: traversal out of comparator order at position " + std::to_string(i)); break; }
+        delete (C*)ps.cont; ps.cont = nullptr;
+    }
+    b.wait();
+}
+typedef void (*PubFn)(PubShared&, int, Barrier&);
+static const PubFn g_pub[CK_N] = { &pub_thread<UM>, &pub_thread<US>, &pub_thread<UMM>, &pub_thread<UMS>, &pub_thread<OM>, &pub_thread<OS>, &pub_thread<OMM>, &pub_thread<OMS>, &pub_thread<FS>, &pub_thread<FMS> };
+
+static int run_pub(Result& R, long cases, long force_kind) {
+    WatchdogCfg wcfg; wcfg.hard_limit_s = 400;
+    watchdog_start(wcfg, [&](const HangInfo& hi) {
+        std::string d = "no progress for " + std::to_string(hi.stalled_for) + "s; threads: " + hi.threads;
+        if (!hi.quiescent && !hi.spin_stall) { R.inconclusive++; R.finish_and_exit(4); }
+        R.violation(hi.quiescent ? "c12.hang.quiescent" : "c12.hang.spin-stall", d.substr(0, 1500), "{\"mode\":\"pub\"}");
+        R.finish_and_exit(3);
+    });
+    const int NT = 4;
+    PubShared ps; Barrier b(NT); std::atomic<bool> quit{false};
+    Rng top(mix(R.seed, 0xB0B));
+    std::vector<std::thread> th;
+    // the driver is thread 0; helper threads follow the same sequence of rounds (the configuration is published by the first barrier)
+    Barrier cfgb(NT);
+    for (int t = 1; t < NT; t++) th.emplace_back([&, t] { for (;;) { cfgb.wait(); if (quit.load()) return; g_pub[ps.kind](ps, t, b); } });
+    for (long done = 0; done < cases; done++) {
+        ps.seed = top.next(); Rng r(ps.seed);
+        ps.kind = force_kind >= 0 ? (int)force_kind : (int)r.below(CK_N);
+        ps.cfg = Cfg(); ps.cfg.g = r.chance(1, 5) ? 2 : 1; ps.cfg.hmode = (int)r.below(H_NMODES); ps.cfg.base = r.next() & 0x3ff; ps.cfg.shift = (int)r.pick(std::vector<int>{ 1, 3, 4, 8, 16 }); ps.cfg.B = 1ull << (3 + r.below(5)); ps.cfg.cmode = (int)r.below(C_NMODES);
+        ps.nU = (int)r.pick(std::vector<int>{ 1, 2, 4, 8, 12, 12, 16, 48 }); ps.inserters = 1 + (int)r.below(3); ps.per = (int)r.pick(std::vector<int>{ 8, 24, 24, 60 });
+        ps.succ.store(0); ps.attempts.store(0); ps.reads.store(0);
+        long live0 = g_live.load();
+        cfgb.wait();
+        g_pub[ps.kind](ps, 0, b);
+        if (g_live.load() != live0) fail("c12.life.construct-destroy-imbalance", "pub round: " + std::to_string(g_live.load() - live0) + " element payloads still alive after the container was destroyed");
+        R.scenarios++; R.nontrivial++; R.signature(mix((uint64_t)ps.kind * 131 + (uint64_t)ps.nU, (uint64_t)ps.succ.load() * 7 + (uint64_t)ps.inserters));
+        R.stat("pub_rounds"); R.stat(std::string("pub_kind_") + cont_name[ps.kind]); R.stat("pub_insert_attempts", ps.attempts.load()); R.stat("pub_successful_inserts", ps.succ.load()); R.stat("pub_concurrent_reads", ps.reads.load());
+        R.stat("ops", ps.attempts.load() + ps.reads.load());
+        if (g_fails.load()) {
+            Json j; j.obj(); j.kv("mode", "pub"); j.kv("container", cont_name[ps.kind]); j.kv("round_seed", (unsigned long long)ps.seed); j.kv("distinct_classes", ps.nU); j.kv("inserting_threads", ps.inserters); j.kv("inserts_per_thread", ps.per);
+            j.kv("replay", "c12 --mode pub --seed " + std::to_string(R.seed) + " --cases " + std::to_string(done + 1)); j.end_obj();
+            R.violation(g_fail_key, g_fail_detail.substr(0, 1400), j.s); g_fails.store(0);
+        }
+        progress();
+    }
+    quit.store(true); cfgb.wait(); for (auto& x : th) x.join();
+    watchdog_stop();
+#if VRT_ASAN
+    __lsan_do_leak_check();
+#endif
+    R.finish_and_exit(0);
+    return 0;
+}
+
 int main(int argc, char** argv) {
     Args a = standard_init(argc, argv, "c12");
     Result& R = result();
@@ -801,6 +905,7 @@ int main(int argc, char** argv) {
     int cpus = (int)a.num("cpus", 0);
     g_drop_sl_handles = a.has("drop-sl-handles");
     const std::string mode = R.mode;
+    if (mode == "pub") return run_pub(R, cases, force_kind);
     std::vector<int> ids_uo = { 160, 161, 162, 163 }, ids_sl = { 164, 165, 166 };
     Rng top(mix(R.seed, 0xC12));
     tbb::global_control gc(tbb::global_control::max_allowed_parallelism, 16);
